@@ -8,7 +8,10 @@
    localManager on a bolt file (close/reopen included), reads the whole store back after every step,
    runs the consumers under recover.
 4. harness/server/c18_test.go lets the owner of every distinct record of those behaviours connect
-   (userPanel.GetUser -> MakeValve) under recover."""
+   (userPanel.GetUser -> MakeValve) under recover.
+5. B2: TestVerifC18Linear records call/return events of 2-4 goroutines issuing overlapping requests (episodes with
+   a full read-back) and TLC validates the recording against UserDBTrace.tla (linearizability w.r.t. UserDB);
+   a permutation search in Go is the second formulation; a forced LIST schedule runs first."""
 import concurrent.futures
 import json
 import os
@@ -18,6 +21,8 @@ import lib
 
 LEVEL = "model_checking"
 ASSUME = [
+    "overlapping requests are sampled with real goroutines (no schedule control except the forced LIST schedule); "
+    "a completed set of overlapping requests must be linearizable w.r.t. UserDB (the lead's reading of 'acts as a keyed store')",
     "UIDs are 16 bytes (what the Cloak client sends); two UIDs, both byte orders",
     "integers are concretised from a compressed number line: {min, min+k, -k..k, max-k, max} of the field's Go type; "
     "usage reports whose subtraction would overflow int64 are exercised for panics only, not for the stored result",
